@@ -176,7 +176,7 @@ def r3(ctx) -> None:
     ctx.sites("C09-R3", "updates of the accumulated axis", len(updates), 2)
     n_checked = 0
     for d in updates:
-        v = d.value
+        v = fl.inline(d.value, d.stmt)  # temporaries looked through
         is_merge = isinstance(v, ast.Call) and norm(v.func) in ("np.unique", "numpy.unique")
         if is_merge:
             n_checked += 1
@@ -190,10 +190,12 @@ def r3(ctx) -> None:
                 lst = inner.args[0] if inner.args else None
                 elts = lst.elts if isinstance(lst, (ast.List, ast.Tuple)) else []
                 others = [e for e in elts if not (isinstance(e, ast.Name) and e.id == acc_name)]
-                aligned_ok = len(elts) == 2 and len(others) == 1 and isinstance(others[0], ast.Name) and any(
-                    dd.kind == "assign" and isinstance(dd.value, ast.ListComp) and "align_index" in norm(dd.value)
-                    for dd in fl.reaching(others[0].id, d.stmt)) and all(
-                    dd.kind == "assign" and isinstance(dd.value, ast.ListComp) for dd in fl.reaching(others[0].id, d.stmt))
+                aligned_ok = len(elts) == 2 and len(others) == 1 and (
+                    (isinstance(others[0], ast.ListComp) and "align_index" in norm(others[0]))
+                    or (isinstance(others[0], ast.Name) and any(
+                        dd.kind == "assign" and isinstance(dd.value, ast.ListComp) and "align_index" in norm(dd.value)
+                        for dd in fl.reaching(others[0].id, d.stmt)) and all(
+                        dd.kind == "assign" and isinstance(dd.value, ast.ListComp) for dd in fl.reaching(others[0].id, d.stmt))))
                 ctx.ob("C09-R3", "create_aligned_global_axes/merges-aligned-points", aligned_ok, fi, d.stmt,
                        "the accumulated axis is extended by the dataset's *aligned* points; merging the original axis leaves the "
                        "old coordinate of every moved point behind as a ghost target for later datasets")
